@@ -560,6 +560,16 @@ where
             }
         }
 
+        crate::verif_event!(
+            "cfb.dec.avail",
+            match protected {
+                MaybeProtected::ProtectedCheckFirst { .. } => 0,
+                MaybeProtected::ProtectedStreaming { .. } => 1,
+                MaybeProtected::Unprotected { .. } => 2,
+            },
+            *data_available,
+            is_last_read
+        );
         Ok(is_last_read)
     }
 
@@ -591,6 +601,7 @@ where
                         if bool::from(!mdc_ok) {
                             return Err(io::Error::other(Error::MdcError));
                         }
+                        crate::verif_event!("cfb.dec.mdc_ok", buffer.len(), 0, 0);
                     }
 
                     MaybeProtected::Unprotected { .. } => {
